@@ -1693,6 +1693,7 @@ void x509FreeExtensions(x509v3extensions_t *extensions)
         {
             inc = active->next;
             psFree(active->data, extensions->pool);
+            psFree(active->oid, extensions->pool);
             psFree(active, extensions->pool);
             active = inc;
         }
@@ -1707,6 +1708,7 @@ void x509FreeExtensions(x509v3extensions_t *extensions)
         {
             inc = active->next;
             psFree(active->data, extensions->pool);
+            psFree(active->oid, extensions->pool);
             psFree(active, extensions->pool);
             active = inc;
         }
